@@ -16,45 +16,61 @@ CHECKS = {
                      "role / trust configuration under an unrestricted adversary; every edge of the bounded-hostility graphs and "
                      "simulated long behaviours are replayed into real ship.ShipConnection objects with step-by-step conformance, and "
                      "the same formula is evaluated by TLC on what the real code reported (states, setup callback, payload deliveries) "
-                     "against the trust the harness actually granted.", ref="6.C01"),
+                     "against the trust the harness actually granted. Hub level: HubApi.tla (invariant: the hub holds a service trusted "
+                     "only on the user's word) with every behaviour replayed into a real hub.Hub, and two real hubs whose every "
+                     "ShipConnection is observed through wrappers (hooks ship.VerifWrap / VerifEntry): the same SmeProps operators run over "
+                     "each recorded connection history, with trust = what the real hub answered (paired / auto accept) or approved, and "
+                     "the hub's answers are judged against the user's recorded operations.", ref="6.C01"),
     "C03": dict(engine="sme", technique="TLA+ model checking of the two-endpoint ShipSme + TLC schedules replayed on two real connections, TLC monitor",
                 text="The pair configuration of ShipSme (client and server endpoint, FIFO queues, close propagation, timely and arbitrary "
                      "timer modes) is model checked for agreement at quiescence for all trust x SHIP-id configurations; simulated "
                      "schedules are replayed on two real ShipConnections joined by harness-owned queues (frames are whatever the real "
-                     "endpoints wrote) and judged by JudgePair in the TLC monitor pass.", ref="6.C03"),
+                     "endpoints wrote) and judged by JudgePair in the TLC monitor pass (a side has ended only when its transport is "
+                     "closed and it reported its end). The pair formula is also evaluated at quiescence of scenarios between two real hubs.", ref="6.C03"),
     "C04": dict(engine="sme", technique="TLA+ model checking of ShipSme + replay, the SHIP state graph as a TLA+ constant evaluated on real report sequences",
                 text="The allowed reported-state graph of SHIP 13.4.3-13.4.6 is a TLA+ constant; exhaustive model checking shows the "
                      "handler model only produces allowed edges and nothing after a terminal / closed outcome, including a write failure "
                      "at any send; the edge cover and simulations are replayed into the real connection and the real report sequence, "
-                     "timer flag, frames and close calls are judged by the same formulas.", ref="6.C04"),
+                     "timer flag, frames and close calls are judged by the same formulas (incl. the transport is closed after any "
+                     "CloseConnection call). The same operators run over the live history of every connection two real hubs create; "
+                     "what overlapping entry points produce there falls under the known finding concurrent-entry-points.", ref="6.C04"),
     "C05": dict(engine="hub2", technique="TLA+ model checking of Hub2 (two hubs, non-atomic dial/keep/register, delayed dials) + TLC environment scripts on two real hubs, TLC monitor at quiescence",
                 text="Hub2.tla models two hubs at critical-section granularity (reports, delayed dial goroutines, keepThisConnection, Run, "
                      "registerConnection, double-connection rule, closes, checkAutoReannounce) and TLC checks 'stable and quiet => exactly "
-                     "one good connection, no orphan' for all interleavings within the bounds (4 connection ids, 2 disturbances). "
-                     "Simulated environment scripts (registration / visibility in any order, DisconnectSKI, transport cuts) run on two REAL "
+                     "one good connection, no orphan', 'trusted only on the user's word', 'nothing alive at a hub that was shut down' for all "
+                     "interleavings within the bounds (3 / 4 connection ids, 2 disturbances) with Unregister, Disappear, Restart, Shutdown, "
+                     "CancelPairing and SetAutoAccept as environment steps. Simulated environment scripts of six families (plain, rich, rich2, "
+                     "warm start, wrong stored SHIP id at either hub; each step marked with what the model's registry held) run on two REAL "
                      "hubs: real TLS websockets over loopback, the real MdnsManager over an ether, TCP proxies to count and cut streams, "
-                     "once with the dial back-off scaled to 2 % and once to zero (simultaneous dials). The monitor judges registries, open "
+                     "with the dial back-off scaled to 2 %, to zero (simultaneous dials) and to zero on one processor. The monitor judges registries, open "
                      "streams and a payload echo in both directions at quiescence.", ref="6.C05",
                 note="trusted: TLC; schedules of the real goroutines are chosen by the Go scheduler, only the environment is scripted; "
                      "the handshake inside Hub2 is a one-step summary of ShipSme; quiescence is detected by silence plus registry state"),
     "C06": dict(engine="sme", technique="TLA+ model checking of ShipSme (single + pair) + replay, FIFO/exactly-once formula on real deliveries",
                 text="Data frames are injected in every state (single endpoint) and written by both applications (pair); the formula "
                      "'delivered = injected prefix, in order, only after completion, everything while open' is model checked and then "
-                     "evaluated on the payload deliveries of the real connections, with the real EEBUS transform in the path.", ref="6.C06"),
+                     "evaluated on the payload deliveries of the real connections, with the real EEBUS transform in the path; a cooperative "
+                     "peer may send up to three data frames at any point of the handshake (held back, flushed in order at completion). "
+                     "Two real hubs: received is an ordered duplicate-free selection of sent, and per connection delivered = arrived.", ref="6.C06"),
     "C08": dict(engine="sme", technique="TLA+ model checking for (state x input class) coverage + replay + structured byte-level mutations in every cooperative state",
                 text="TLC enumerates every reachable state x message class (including the present-but-empty format list); all edges are "
                      "executed on the real connection under a deadline with panic recovery; in every state a cooperative peer can reach, "
-                     "structured mutations of every message class are delivered. Oracle: no panic, no hang (TLC monitor). mDNS side: the "
+                     "structured mutations of every message class are delivered (the close announce with rotating maxTime values; its "
+                     "handler must return once real time has passed). Oracle: no panic, no hang (TLC monitor). mDNS side: the "
                      "TLC-enumerated table of awkward resolver inputs (MdnsBadGen) on a real MdnsManager; websocket side: the frames a "
                      "SHIP peer must never send (WsGen peerBad rows) on a real websocket connection, each followed by a regular frame.", ref="6.C08"),
     "C09": dict(engine="sme", technique="TLA+ model checking of ShipSme over stored x presented SHIP ids + replay, TLC monitor on real id reports / setup",
                 text="All (stored, presented) SHIP-id pairs incl. empty / missing / ill-typed, both roles, both orders of request and reply "
-                     "are model checked; replay judges the real ReportServiceShipID / SetupRemoteDevice event order and the final state.", ref="6.C09"),
+                     "are model checked; replay judges the real ReportServiceShipID / SetupRemoteDevice event order and the final state. Hub "
+                     "level: Hub2.tla with a hub whose application stored a wrong SHIP id never completes a connection (TLC), and on two real "
+                     "hubs (applications that stored nothing / the right / a wrong id, scripts that trust the peer while its request is "
+                     "pending) no device is set up at the hub with the wrong id.", ref="6.C09"),
     "C11": dict(engine="sme", technique="TLA+ model checking of ShipSme close paths + replay with the real delayed-close goroutines, TLC monitor",
                 text="Connection level: every pair of close causes (local safe/unsafe close, peer announce / confirm, transport error, error "
                      "exit, abort timer, write on a closed writer) in both orders is in the bounded-hostility graph (budget 2); the real "
                      "500 ms / 1 s goroutines are waited for, and HandleConnectionClosed calls are counted per connection object. The hub "
-                     "level part of C11 is decided by the HubApi / two-hub checks.", ref="6.C11"),
+                     "level part (HubApi.tla incl. a registration during the disconnect notification, two real hubs incl. the live history "
+                     "of every connection) is composed into this check.", ref="6.C11"),
     "C12": dict(engine="ws", technique="TLA+ model checking of WsConn (TLC, incl. liveness) + environment scripts on the real connection, TLC monitor + trace validation",
                 text="WsConn.tla models writers, both pumps and close() at the code's atomicity; TLC checks no-panic, prefix and "
                      "every-write-returns (liveness under per-process fairness) for 2-3 writers, every placement of local close, peer "
@@ -67,12 +83,13 @@ CHECKS = {
                 text="Same model and engine as C12 with the C13 formulas: loss reported with a non-nil closed-error, quiet local close, "
                      "at most the one in-flight delivery after close, and closed ~> pumps done and socket closed (liveness). On the real "
                      "code a fault is injected at the k-th net.Conn read / write for every k of a session, peer close frames and EOF, "
-                     "local close with and without reason; pump goroutines are attributed per scenario from the goroutine dump and "
-                     "net.Conn.Close calls are counted.", ref="6.C13",
+                     "local close with and without reason, a transport read that returns to the pump only after the local close returned; "
+                     "pump goroutines are attributed per scenario from the goroutine dump and net.Conn.Close calls are counted.", ref="6.C13",
                 note="trusted: gorilla/websocket, loopback TCP, TLC; pump termination is read from runtime.Stack"),
     "C02": dict(engine="tables", technique="TLA+ decision table CertGate (enumerated and sanity-checked by TLC) evaluated row by row on a real hub over TLS, TLC monitor",
                 text="The requirement is a TLA+ decision table over (client certificate, SKI length, binding of the SKI to the key, TLS "
-                     "version, sub-protocol offer), outbound (dialled vs presented SKI / key) and generator subjects. TLC enumerates it; "
+                     "version, sub-protocol offer, what follows the leaf in the client's chain), outbound (dialled vs presented SKI / key) "
+                     "and generator subjects. TLC enumerates it; "
                      "each row is executed against a real hub.Hub on loopback (forged x509 certificates, raw crypto/tls + gorilla "
                      "clients, an adversarial TLS server for outbound dials); the monitor evaluates Judge(row, observed). This is an "
                      "input-space property of a gate: the specification contributes the exhaustive table, not interleavings.", ref="6.C02",
@@ -87,15 +104,19 @@ CHECKS = {
                 text="MdnsText.tla defines strings as atoms with byte widths so that the 32 byte limit is hit at every offset of every "
                      "rune width, and the requirement AnnouncedOK / field equality / QR fields. TLC enumerates 2572 rows; the real "
                      "manager announces, the library's own parseTxt and processMdnsEntry read the record back, the QR text is parsed "
-                     "with the SHIP;KEY:VALUE;..ENDSHIP; grammar, and the monitor evaluates the requirement on the real outputs.", ref="6.C16",
+                     "with the SHIP;KEY:VALUE;..ENDSHIP; grammar, and the monitor evaluates the requirement on the real outputs. The "
+                     "stateful part is MdnsAnnounce.tla: TLC checks 'what is published carries the current auto accept flag' for every "
+                     "sequence of announce / unannounce / SetAutoAccept calls with failing provider announcements, and every sequence of "
+                     "the stated length runs on a real manager, read back with the library's own parser.", ref="6.C16",
                 note="trusted: TLC; atoms are concretised by one representative each; the QR grammar parser is the harness' own"),
     "C10": dict(engine="hub", technique="TLA+ model checking of HubApi (TLC) + replay of TLC behaviours into a real hub.Hub, TLC monitor",
                 text="HubApi.tla models every HubInterface method, info-provider callback and mDNS report over two SKIs with a user-intent "
                      "ghost; TLC checks that a dial is only attempted with user intent and never after Shutdown for all operation "
                      "sequences up to the bound. Behaviours (one per edge + simulated) are replayed into a real hub.Hub whose dial attempts "
                      "are observed at refusing TCP listeners; MonHub judges dials, unregister (connection closed, trust cleared) and "
-                     "cancel (pending handshake aborted) on the real observations. The multi-hub / pending-delayed-dial part of the "
-                     "quantifier is covered sequentially (delayed attempts are run to completion between steps).", ref="6.C10",
+                     "cancel (pending handshake aborted, no connection left that cannot be aborted) on the real observations. The multi-hub "
+                     "part of the quantifier is Hub2.tla + scripts on two real hubs (composed into this check): nobody trusts or completes "
+                     "without both users' word, nothing alive or dialled at a hub that was shut down.", ref="6.C10",
                 note="trusted: TLC; connection objects are harness fakes (the SME layer is checked separately); the random dial back-off "
                      "is scaled to zero through the verif delay hook"),
     "C15": dict(engine="hub", technique="TLA+ model HubApi defined on SKI identities + every behaviour replayed twice (canonical / re-spelled) on a real hub.Hub, TLC monitor",
@@ -120,8 +141,9 @@ CHECKS = {
                 note="trusted: TLC; handshake state sequences come from the model, not from a real peer"),
     "C19": dict(engine="avahi", technique="TLA+ model checking of Avahi (TLC) + environment scripts on the real AvahiProvider over a fake daemon, TLC monitor",
                 text="Avahi.tla models announce bookkeeping, the Disconnected callback, the reconnect loops and Shutdown against a daemon "
-                     "that goes away and comes back; TLC checks 'published = requested once settled', 'nothing after shutdown' and "
-                     "'shutdown is final' for all interleavings within the bounds. Simulated scripts run on the real provider over a fake "
+                     "that goes away and comes back, the listener goroutine resolving a browse result while Shutdown is called; TLC checks "
+                     "'published = requested once settled', 'nothing after shutdown', 'shutdown is final' and the liveness 'a Shutdown that "
+                     "was called returns' (with a negative control) for all interleavings within the bounds. Simulated scripts run on the real provider over a fake "
                      "avahi.ServerInterface with the real 1 s retry sleeps; the monitor judges the daemon-side state, calls after Shutdown "
                      "returned, hangs / panics and that a service resolved afterwards is reported.", ref="6.C19",
                 note="trusted: TLC; the daemon is a fake behind avahi.ServerInterface; go-avahi's own dbus layer is not exercised"),
@@ -177,18 +199,18 @@ def main():
                  serves_properties=["C12", "C13"],
                  kind_free_text="TLC model checking incl. liveness + scripted runs of the real websocket connection + TLC monitor + trace validation"),
             dict(name="hub", path="spec/HubApi.tla spec/MonHub.tla harness/cmd/hubapi tools/check_hub.py",
-                 serves_properties=["C10", "C11", "C15", "C18"],
+                 serves_properties=["C01", "C10", "C11", "C15", "C18"],
                  kind_free_text="TLC model checking + replay of TLC behaviours into a real hub.Hub (twice: canonical / re-spelled SKIs) + TLC monitor"),
             dict(name="mdns", path="spec/MdnsMgr.tla spec/MdnsOracle.tla spec/MonMdns.tla harness/cmd/mdnsmgr tools/check_mdns.py",
                  serves_properties=["C17"], kind_free_text="TLC model checking + resolver event sequences on the real MdnsManager + TLC monitor"),
             dict(name="avahi", path="spec/Avahi.tla spec/MonAvahi.tla harness/cmd/avahi tools/check_avahi.py",
                  serves_properties=["C19"], kind_free_text="TLC model checking + scripted runs of the real AvahiProvider on a fake daemon + TLC monitor"),
-            dict(name="tables", path="spec/CertGate.tla spec/EebusJson.tla spec/MdnsText.tla (+ generators and monitors) harness/cmd/{certgate,eebusjson,mdnstext} tools/check_{cert,json,text}.py",
+            dict(name="tables", path="spec/CertGate.tla spec/EebusJson.tla spec/MdnsText.tla spec/MdnsAnnounce.tla (+ generators and monitors) harness/cmd/{certgate,eebusjson,mdnstext} tools/check_{cert,json,text}.py",
                  serves_properties=["C02", "C07", "C16"],
                  kind_free_text="requirement tables / operator transcriptions enumerated by TLC, evaluated row by row on the real code, judged by a TLC monitor pass"),
             dict(name="hub2", path="spec/Hub2.tla spec/MonHub2.tla harness/cmd/hub2 tools/check_hub2.py",
-                 serves_properties=["C05", "C10", "C11", "C18"],
-                 kind_free_text="TLC model checking of two hubs + TLC environment scripts on two real hubs over loopback TLS + TLC monitor at quiescence"),
+                 serves_properties=["C01", "C03", "C04", "C05", "C06", "C09", "C10", "C11", "C18"],
+                 kind_free_text="TLC model checking of two hubs + TLC environment scripts on two real hubs over loopback TLS + TLC monitor: hub level at quiescence, SmeProps over the live history of every connection"),
             dict(name="timer", path="spec/Timer.tla spec/AbsTimer.tla spec/TimerGen.tla spec/MonTimer.tla harness/cmd/timer tools/check_timer.py",
                  serves_properties=["C14"], kind_free_text="TLC refinement check + script enumeration on real timers + TLC monitor pass"),
             dict(name="bad-input", path="spec/MdnsBadGen.tla spec/MonBad.tla spec/WsGen.tla spec/MonWs.tla harness/cmd/mdnsmgr harness/cmd/wsconn tools/check_bad.py",
